@@ -336,6 +336,12 @@ impl World {
 				let base = Path::new(&filename).file_name().unwrap().to_str().unwrap().to_string();
 				let i: usize = base.trim_start_matches('s').parse()?;
 				anyhow::ensure!(i < mem.len(), "no such source");
+				// opening a source is genuinely asynchronous: the future of an EARLIER listed source stays
+				// pending longer than that of a later one (deterministic, no timers), so the completion order
+				// of the opening futures is the reverse of the list order
+				for _ in 0..(mem.len() - i) * 3 {
+					tokio::task::yield_now().await;
+				}
 				match &paths[i] {
 					Some(p) => get_reader(p.to_str().unwrap()).await,
 					None => Ok(Box::new(mem[i].clone()) as Box<dyn TilesReaderTrait>),
